@@ -1,7 +1,8 @@
 // C17  Elementary and reduction functions return their mathematical values.
 // Oracles: long-double (x87 80-bit) definitions that share no code with dsplib; principal-value angle = atan2(im, re),
 // z^p = exp(p Log z) on the principal branch, rms = sqrt(mean |x|^2), stddev with n-1, norms, dB / degree conversions.
-// Tolerances (DESIGN C17): element-wise 8 eps |ref|; power (4 + |p| pi) 4 eps |ref|; accumulations 4 n eps sum|terms|;
+// Tolerances (DESIGN C17): element-wise 8 eps |ref|; power (4 + |p| pi) 4 eps |ref|; accumulations 4 n eps sum|terms|
+// (+ 4 eps where the terms are products / squares rounded before the accumulation: dot, rms; + 8 eps for norm);
 // where a function rounds an intermediate *exponent* (db2pow, db2mag, norm p>=3, dB round trips) the tolerance carries
 // the condition number of that exponentiation (derived next to the reference, see each sub-check).
 // Copies / selections (real, imag, conj, complex, round, abs(real), flip, repelem, zeropad, delayseq, up/downsample,
@@ -316,7 +317,7 @@ static void ew_gen(Ctx& ctx) {
                     if (!ctx.mine()) continue;
                     ctx.eval(Json::object().set("fn", f.name).set("cls", cls).set("n", n).set("seed", (long long)(mix(ctx.seed, key_of(hash_str(f.name), cls, n, rep)) >> 16)));
                 }
-    ctx.rc("random", ctx.by_tier(3000000, 24000000), [&]() {
+    ctx.rc("random", ctx.by_tier(1000000, 10000000), [&]() {
         const EFn& f = efns()[size_t(pick(0, int(efns().size()) - 1))];
         int cls = f.cls[size_t(pick(0, int(f.cls.size()) - 1))];
         return Json::object().set("fn", f.name).set("cls", cls).set("n", pick_log(1, 1000)).set("seed", (long long)seed64());
@@ -485,7 +486,7 @@ static void pw_gen(Ctx& ctx) {
                         ctx.eval(Json::object().set("ov", ov).set("bcls", bcls).set("ecls", ec).set("n", n).set("seed", (long long)(mix(ctx.seed, key_of(ov, bcls, ec, n, rep)) >> 16)));
                     }
     }
-    ctx.rc("random", ctx.by_tier(3000000, 24000000), [&]() {
+    ctx.rc("random", ctx.by_tier(1000000, 10000000), [&]() {
         int ov = pick(0, OV_N - 1);
         const bool cx = ov_cbase(ov);
         int bcls = cx ? PB_CX[size_t(pick(0, int(sizeof PB_CX / sizeof PB_CX[0]) - 1))] : pick(0, PB_N - 1);
@@ -568,9 +569,9 @@ static void red_check(const Json& c, Out& o) {
         const arr_real a = AR(x), b = AR(y);
         R.cmp("sum", dsplib::sum(a), s, 4 * N * E * sa); ++ev;
         R.cmp("mean", dsplib::mean(a), mean, 4 * N * E * sa / N); ++ev;
-        R.cmp("rms", dsplib::rms(a), rms, 4 * N * E * rms); ++ev;
+        R.cmp("rms", dsplib::rms(a), rms, (4 * N + 4) * E * rms); ++ev;
         if (n >= 2) { R.cmp("stddev", dsplib::stddev(a), sd, 4 * N * E * sd + 4 * E * sa); ++ev; }
-        R.cmp("dot", dsplib::dot(a, b), dt, 4 * N * E * dta); ++ev;
+        R.cmp("dot", dsplib::dot(a, b), dt, (4 * N + 4) * E * dta); ++ev;
         R.cmp("norm(p=1)", dsplib::norm(a, 1), sa, (4 * N + 8) * E * sa); ++ev;
         R.cmp("norm(p=2)", dsplib::norm(a, 2), sqrtl(ss), (4 * N + 8) * E * sqrtl(ss)); ++ev;
         R.cmp("norm(default)", dsplib::norm(a), sqrtl(ss), (4 * N + 8) * E * sqrtl(ss)); ++ev;
@@ -591,9 +592,9 @@ static void red_check(const Json& c, Out& o) {
         const arr_cmplx a = AC(x), b = AC(y);
         R.cmp("sum", tc(dsplib::sum(a)), s, 4 * N * E * sa); ++ev;
         R.cmp("mean", tc(dsplib::mean(a)), mean, 4 * N * E * sa / N); ++ev;
-        R.cmp("rms", dsplib::rms(a), rms, 4 * N * E * rms); ++ev;
+        R.cmp("rms", dsplib::rms(a), rms, (4 * N + 4) * E * rms); ++ev;
         if (n >= 2) { R.cmp("stddev", dsplib::stddev(a), sd, 4 * N * E * sd + 4 * E * sa); ++ev; }
-        R.cmp("dot", tc(dsplib::dot(a, b)), dt, 4 * N * E * dta); ++ev;   // sum x1[i] x2[i], no conjugation (code, unit test FFT.CztDft)
+        R.cmp("dot", tc(dsplib::dot(a, b)), dt, (4 * N + 4) * E * dta); ++ev;   // sum x1[i] x2[i], no conjugation (code, unit test FFT.CztDft)
         R.cmp("norm(p=1)", dsplib::norm(a, 1), sa, (4 * N + 8) * E * sa); ++ev;
         R.cmp("norm(p=2)", dsplib::norm(a, 2), sqrtl(ss), (4 * N + 8) * E * sqrtl(ss)); ++ev;
         R.cmp("norm(default)", dsplib::norm(a), sqrtl(ss), (4 * N + 8) * E * sqrtl(ss)); ++ev;
@@ -632,7 +633,7 @@ static void red_gen(Ctx& ctx) {
                     if (!ctx.mine()) continue;
                     ctx.eval(Json::object().set("cx", cx).set("cls", cls).set("cls2", (cls + n) % A_N).set("n", n).set("p", p).set("seed", (long long)(mix(ctx.seed, key_of(cx, cls, n, p)) >> 16)));
                 }
-    ctx.rc("random", ctx.by_tier(1500000, 12000000), [&]() {
+    ctx.rc("random", ctx.by_tier(400000, 4000000), [&]() {
         int p = pick(0, 6);
         p = p == 0 ? 0 : p + 2;
         return Json::object().set("cx", pick(0, 1)).set("cls", pick(0, A_N - 1)).set("cls2", pick(0, A_N - 1)).set("n", pick_log(1, 1000)).set("p", p).set("seed", (long long)seed64());
@@ -754,7 +755,7 @@ static void mm_gen(Ctx& ctx) {
                     if (!ctx.mine()) continue;
                     ctx.eval(Json::object().set("cx", cx).set("cls", cls).set("n", n).set("seed", (long long)(mix(ctx.seed, key_of(cx, cls, n, rep, 0x33)) >> 16)));
                 }
-    ctx.rc("random", ctx.by_tier(2000000, 16000000), [&]() {
+    ctx.rc("random", ctx.by_tier(700000, 7000000), [&]() {
         return Json::object().set("cx", pick(0, 1)).set("cls", pick(0, M_N - 1)).set("n", pick_log(1, 1000)).set("seed", (long long)seed64());
     });
 }
@@ -834,7 +835,7 @@ static void rt_gen(Ctx& ctx) {
                     if (!ctx.mine()) continue;
                     ctx.eval(Json::object().set("pair", pair).set("cls", cl).set("n", n).set("seed", (long long)(mix(ctx.seed, key_of(pair, cl, n, rep, 0x77)) >> 16)));
                 }
-    ctx.rc("random", ctx.by_tier(1500000, 12000000), [&]() {
+    ctx.rc("random", ctx.by_tier(500000, 5000000), [&]() {
         int pair = pick(0, 7);
         int cl = cls[size_t(pair)][size_t(pick(0, int(cls[size_t(pair)].size()) - 1))];
         return Json::object().set("pair", pair).set("cls", cl).set("n", pick_log(1, 1000)).set("seed", (long long)seed64());
@@ -880,7 +881,7 @@ static void ai_gen(Ctx& ctx) {
     for (int a = -12; a <= 12; ++a)
         for (int b = -12; b <= 12; ++b) { if (!ctx.mine()) continue; ctx.eval(Json::object().set("start", a).set("stop", b).set("step", 1).set("form", 1)); }
     for (int b = -12; b <= 100; ++b) { if (!ctx.mine()) continue; ctx.eval(Json::object().set("start", 0).set("stop", b).set("step", 1).set("form", 2)); }
-    ctx.rc("random", ctx.by_tier(1000000, 8000000), [&]() {
+    ctx.rc("random", ctx.by_tier(300000, 3000000), [&]() {
         int start = pick(-1000000, 1000000), mag = pick_log(1, 100000), step = flip() ? mag : -mag;
         int count = pick_log(0, 2000), rem = pick(0, mag - 1);
         // stop = last listed element + (1..|step|) further in the direction of step; count 0 => stop on the wrong side or equal
@@ -956,7 +957,7 @@ static void af_gen(Ctx& ctx) {
                 ctx.eval(Json::object().set("types", 0).set("start", double(s0)).set("step", step).set("k", k).set("grid", "decimal"));
             }
     for (int k = 0; k <= 200; ++k) { if (!ctx.mine()) continue; ctx.eval(Json::object().set("types", 6).set("start", 0.0).set("step", 1.0).set("k", k).set("grid", "integer")); }
-    ctx.rc("random", ctx.by_tier(1000000, 8000000), [&]() {
+    ctx.rc("random", ctx.by_tier(300000, 3000000), [&]() {
         int types = pick(0, 5), k = pick_log(0, 300), g = pick(0, 2);
         double start, step;
         if (types == 5 || g == 0) {            // dyadic grid: everything exact
@@ -1023,7 +1024,7 @@ static void ls_gen(Ctx& ctx) {
                 if (!ctx.mine()) continue;
                 ctx.eval(Json::object().set("n", n).set("cls", cls).set("seed", (long long)(mix(ctx.seed, key_of(n, cls, rep, 0x115)) >> 16)));
             }
-    ctx.rc("random", ctx.by_tier(1000000, 8000000), [&]() { return Json::object().set("n", pick_log(1, 1000)).set("cls", pick(0, 7)).set("seed", (long long)seed64()); });
+    ctx.rc("random", ctx.by_tier(300000, 3000000), [&]() { return Json::object().set("n", pick_log(1, 1000)).set("cls", pick(0, 7)).set("seed", (long long)seed64()); });
 }
 
 // =========================================================================================== upsample / downsample
@@ -1105,7 +1106,7 @@ static void ud_gen(Ctx& ctx) {
                     if (!ctx.mine()) continue;
                     ctx.eval(Json::object().set("n", n).set("f", f).set("ph", ph).set("cx", cx).set("seed", (long long)(mix(ctx.seed, key_of(n, f, ph, cx)) >> 16)));
                 }
-    ctx.rc("random", ctx.by_tier(1000000, 8000000), [&]() {
+    ctx.rc("random", ctx.by_tier(300000, 3000000), [&]() {
         int n = pick_log(1, 1000), f = pick_log(1, 64);
         return Json::object().set("n", n).set("f", f).set("ph", pick(0, f - 1)).set("cx", pick(0, 1)).set("seed", (long long)seed64());
     });
@@ -1164,7 +1165,7 @@ static void sh_gen(Ctx& ctx) {
                     ctx.eval(Json::object().set("fn", fn).set("n", n).set("k", k).set("cx", cx).set("seed", (long long)(mix(ctx.seed, key_of(fn, n, k, cx)) >> 16)));
                 }
             }
-    ctx.rc("random", ctx.by_tier(1000000, 8000000), [&]() {
+    ctx.rc("random", ctx.by_tier(300000, 3000000), [&]() {
         int fn = pick(0, 3), n = pick_log(1, 1000);
         int k = fn == 0 ? pick_log(0, 32) : fn == 1 ? 0 : fn == 2 ? pick_log(0, 1000) : pick(0, 2 * (n + 2));
         return Json::object().set("fn", fn).set("n", n).set("k", k).set("cx", pick(0, 1)).set("seed", (long long)seed64());
